@@ -58,6 +58,7 @@ func init() {
 				alts = append(alts, 1e-300, 5e-324, -0.5, 1, 8848.86, -10994, 1e6, -1e6)
 			}
 			return []engine.Phase{
+				longProjectionListPhase(tier),
 				{Name: "mercator-3857", ShardDepth: 2, Bounds: engine.Bounds{InputDev: -1},
 					Rule: "full product lon x lat x alt alphabets (10 x 10 x 6 edge values; quick adds a 15 x 10 degree sweep with one-ulp neighbours; thorough adds a 2.5 x 1.25 degree sweep with one-ulp neighbours, the limits in steps of 1e-10 degrees and 8 more altitudes): forward = closed-form spherical Mercator to 1e-6 m, altitude bit-for-bit, back-conversion within 2e-10 degrees (lon mod 360); a failure is classified [only-with-nonzero-altitude] when the same point with altitude 0 passes; non-trivial = distinct points on a domain edge",
 					Body: func(c *engine.Ctx) {
